@@ -28,15 +28,23 @@ def build(ctx, eng, ce, st, w, tag, cfg):
     events = []
 
     def h_rom(e, s, args, site):
-        return [(s, w.sym(p.func("gameboy.readRomFile").results[0], tag + "rom", "ext:%srom" % tag, ()))]
+        return [(s, World(e, s).sym(p.func("gameboy.readRomFile").results[0], tag + "rom", "ext:%srom" % tag, ()))]
 
     def h_mbc(e, s, args, site):
+        # the cartridge controller is built by newMBC: executed for real (page builders abstracted) by controller_lemma below
         events.append(("newMBC", args))
         return [(s, Iface("ext:mbc", Opaque(tag + "mbc")))]
 
+    def h_prom(e, s, args, site):
+        # the page builders are loops over the image (C08/C09/C11 verify them against their contracts): here fresh page slices
+        return [(s, World(e, s).sym(p.func("memory.prepareROM").results[0], tag + "pages", "ext:%spages" % tag, ()))]
+
+    def h_pram(e, s, args, site):
+        return [(s, World(e, s).sym(p.func("memory.prepareRAM").results[0], tag + "rambanks", "ext:%srambanks" % tag, ()))]
+
     def h_spk(e, s, args, site):
         t = p.func("speakers.New").results[0]
-        return [(s, w.new_object(p.under(t)["elem"], tag + "speakers"))]
+        return [(s, World(e, s).new_object(p.under(t)["elem"], tag + "speakers"))]
 
     def h_left(e, s, args, site):
         return [(s, ChanV(tag + "speakers.left"))]
@@ -47,7 +55,7 @@ def build(ctx, eng, ce, st, w, tag, cfg):
     def h_disp(e, s, args, site):
         t = p.func("display.New").results[0]
         events.append(("display", s.pcond(), list(args)))
-        return [(s, w.new_object(p.under(t)["elem"], tag + "display"))]
+        return [(s, World(e, s).new_object(p.under(t)["elem"], tag + "display"))]
 
     eng.abstract = dict(eng.abstract)
     eng.abstract.update({"gameboy.readRomFile": h_rom, "memory.newMBC": h_mbc, "speakers.New": h_spk,
@@ -109,7 +117,8 @@ def power_on(ctx, eng, ce, prop="C26", invariants=True, wiring=True, two=False, 
     b = build(ctx, eng, ce, st, w, "", cfg)
     lem.covers.append(("lemma:power-on#cover:New-returns", z3.Or(*[s.pcond() for s, _ in b.outs]) if b.outs else z3.BoolVal(False)))
     # every Config reaches a return: no panic inside New other than the ROM loader's (abstracted here, C11)
-    lem.add("lemma:power-on:New-returns-for-every-config", z3.Not(z3.Or(*[s.pcond() for s, _ in b.outs])) if b.outs else z3.BoolVal(True))
+    # every Config reaches a return: no panic or exit inside New other than the ROM loader's (abstracted here, C11)
+    lem.add("lemma:power-on:New-returns-for-every-config", z3.Or(*[t.state.pcond() for t in eng.terminals]) if (eng.terminals and b.outs) else z3.BoolVal(not b.outs))
     for ob in eng.obligs:
         lem.add("lemma:power-on:%s:%s" % (ob.kind, ob.site), ob.viol)
     bad = {}
@@ -255,5 +264,73 @@ def power_on_determinacy(ctx, eng, ce):
     lem.add("determinate:machine-references-no-package-level-object", z3.BoolVal(bool(glob)),
             info={"detail": "package-level objects reachable from the new machine: %s" % sorted(glob)})
     lem.covers.append(("determinate:power-on#cover", z3.Or(*[s.pcond() for s, _ in b.outs]) if b.outs else z3.BoolVal(False)))
+    lem.stats = dict(eng.stats)
+    return lem
+
+
+def controller_lemma(ctx, eng, ce, two=True):
+    """the real newMBC with the page builders abstracted to fresh slices (C08/C09/C11 verify them): for every header the
+    controller kind is the documented function of the cartridge type byte, the controller is built from fresh objects, its
+    arguments (image, clock) and nothing else - no package-level object - and two controllers built one after the other in
+    the same heap share nothing but what they were both given"""
+    lem = Lem()
+    p = ctx.prog
+    st = State()
+    ctx.seed_globals(st)
+    w = World(eng, st)
+    eng.ev = ce
+    eng.contracts = ce.contracts
+    eng.modular = set()
+    pre_objs = set(st.heap.keys())
+    f = p.func("memory.newMBC")
+    KIND = {"none": [0x00], "mbc1": [0x01, 0x02, 0x03], "mbc2": [0x05, 0x06], "mbc3": [0x0f, 0x10, 0x11, 0x12, 0x13],
+            "mbc5": [0x19, 0x1a, 0x1b, 0x1c, 0x1d, 0x1e]}
+
+    def mk(tag, st_):
+        ww = World(eng, st_)
+        rom = ww.sym(f.params[0]["t"], tag + "rom", "arg:%srom" % tag, ())
+        rtc = ww.new_object(p.under(f.params[1]["t"])["elem"], tag + "rtc")
+
+        def h_prom(e, s, args, site):
+            return [(s, World(e, s).sym(p.func("memory.prepareROM").results[0], tag + "pages", "ext:%spages" % tag, ()))]
+
+        def h_pram(e, s, args, site):
+            return [(s, World(e, s).sym(p.func("memory.prepareRAM").results[0], tag + "rambanks", "ext:%srambanks" % tag, ()))]
+        eng.abstract = dict(eng.abstract)
+        eng.abstract.update({"memory.prepareROM": h_prom, "memory.prepareRAM": h_pram})
+        outs = eng.call_function(st_, f.name, [rom, rtc])
+        return rom, rtc, outs
+    eng.terminals, eng.obligs = [], []
+    rom, rtc, outs = mk("", st)
+    lem.covers.append(("lemma:controller#cover", z3.Or(*[s.pcond() for s, _ in outs]) if outs else z3.BoolVal(False)))
+    ct = ce.ev.eval(vsl.parse("rom[0x147]"), {"rom": vsl.TV(rom, ce.ev.ty_of(f.params[0]["t"]))}, st, st).v
+    wrong, glob = [], set()
+    kinds = {}
+    for (s, v) in outs:
+        if not isinstance(v, Iface) or v.t is None:
+            wrong.append(s.pcond())
+            continue
+        tn = p.tname(v.t).replace("*memory.", "")
+        kinds[tn] = kinds.get(tn, 0) + 1
+        wrong.append(z3.And(s.pcond(), z3.Not(z3.Or(*[ct == c for c in KIND.get(tn, [])]))))
+        glob |= reachable(s, v, set()) & pre_objs
+    lem.add("lemma:controller:kind-follows-the-header-type-byte", z3.Or(*wrong) if wrong else z3.BoolVal(True), info={"detail": "kinds %s" % kinds})
+    lem.add("lemma:controller:all-five-kinds-constructible", z3.BoolVal(set(kinds) != set(KIND)), info={"detail": "kinds %s" % kinds})
+    lem.add("lemma:controller:references-no-package-level-object", z3.BoolVal(bool(glob)), info={"detail": "package-level objects reachable from a new controller: %s" % sorted(glob)})
+    if two:
+        shared = set()
+        n2 = 0
+        seen_kinds = set()
+        for (s, v) in outs:
+            if not isinstance(v, Iface) or v.t is None or v.t in seen_kinds:
+                continue
+            seen_kinds.add(v.t)
+            first = reachable(s, v, set()) - pre_objs
+            rom2, rtc2, outs2 = mk("second.", s)
+            for (s2, v2) in outs2:
+                n2 += 1
+                shared |= (first & (reachable(s2, v2, set()) - pre_objs))
+        lem.add("lemma:controller:two-controllers-share-no-object", z3.BoolVal(bool(shared) or n2 == 0), info={"detail": "shared: %s" % sorted(shared)})
+        lem.notes.append("second construction: %d outcomes" % n2)
     lem.stats = dict(eng.stats)
     return lem
